@@ -64,6 +64,11 @@ func (ms *mapStruct) ptr(offset int64, l int32) ([]byte, error) {
 	}
 	if windowSize < len+alignFudge {
 		windowSize = alignedLength(len + alignFudge)
+		// Rounding up must not extend the window past the end of the file:
+		// reading there fails with “file has changed mid-transfer”.
+		if rest := ms.fileSize - windowStart; rest < windowSize && rest >= len+alignFudge {
+			windowSize = rest
+		}
 	}
 	if windowSize > ms.pSize {
 		win := make([]byte, windowSize)
